@@ -235,7 +235,10 @@ func (l *leader) checkConfigAction(t *task, config Config, status *replicationSt
 }
 
 func (l *leader) canChangeConfig() bool {
-	return l.configs.IsCommitted() && !l.transfer.inProgress()
+	// new config is introduced only when latest config is committed, and
+	// leader has committed an entry from its term
+	// see https://groups.google.com/forum/#!msg/raft-dev/t4xj6dJTP6E/d2D9LrWRza8J
+	return l.configs.IsCommitted() && l.commitIndex >= l.startIndex && !l.transfer.inProgress()
 }
 
 func (l *leader) onWaitForStableConfig(t waitForStableConfig) {
